@@ -141,18 +141,51 @@ func main() {
 		o.SyncMs = []int{20, 150, 1000}[rng.Intn(3)]
 		o.MaxInFlight = []int{1, 3, 200}[rng.Intn(3)]
 	}
-	// the options lattice: every combination of the five switches of FileLogger.tla's `opt`
+	// kill points enumerated by TLC
+	var kps []killPt
+	if *killpts != "" {
+		b, err := os.ReadFile(*killpts)
+		if err != nil {
+			fmt.Fprintln(os.Stderr, err)
+			os.Exit(2)
+		}
+		if err := json.Unmarshal(b, &kps); err != nil {
+			fmt.Fprintln(os.Stderr, err)
+			os.Exit(2)
+		}
+	}
+	// the options lattice: the option combinations TLC explored (the `opt` values of FileLogger.tla's initial
+	// states, read off the kill points); without a kill point file, all 32 combinations of the five switches
+	type combo struct {
+		g, w, s bool
+		rs, ri  int
+	}
+	var combos []combo
+	seenCombo := map[combo]bool{}
+	for _, k := range kps {
+		c := combo{k.Gzip, k.WorkDir, k.SkipEmpty, k.RotSize, k.RotInt}
+		if !seenCombo[c] {
+			seenCombo[c] = true
+			combos = append(combos, c)
+		}
+	}
+	if len(combos) == 0 {
+		for c := 0; c < 32; c++ {
+			combos = append(combos, combo{c&1 != 0, c&2 != 0, c&4 != 0, (c >> 3) & 1, (c >> 4) & 1})
+		}
+	}
+	sort.Slice(combos, func(a, b int) bool { return fmt.Sprint(combos[a]) < fmt.Sprint(combos[b]) })
 	rounds := 1
 	if !quick {
 		rounds = 4
 	}
 	for r := 0; r < rounds; r++ {
-		for c := 0; c < 32; c++ {
-			o := scenOpts{Gzip: c&1 != 0, WorkDir: c&2 != 0, SkipEmpty: c&4 != 0}
-			if c&8 != 0 {
+		for c, cb := range combos {
+			o := scenOpts{Gzip: cb.g, WorkDir: cb.w, SkipEmpty: cb.s}
+			if cb.rs != 0 {
 				o.RotSize = int64(150 + rng.Intn(400))
 			}
-			if c&16 != 0 {
+			if cb.ri != 0 {
 				o.RotIntMs = 300 + rng.Intn(500)
 			}
 			dims(&o)
@@ -160,18 +193,7 @@ func main() {
 			scs = append(scs, mk(o, stop))
 		}
 	}
-	// kill points enumerated by TLC
-	if *killpts != "" {
-		b, err := os.ReadFile(*killpts)
-		if err != nil {
-			fmt.Fprintln(os.Stderr, err)
-			os.Exit(2)
-		}
-		var kps []killPt
-		if err := json.Unmarshal(b, &kps); err != nil {
-			fmt.Fprintln(os.Stderr, err)
-			os.Exit(2)
-		}
+	if len(kps) > 0 {
 		sort.Slice(kps, func(a, b int) bool { return fmt.Sprint(kps[a]) < fmt.Sprint(kps[b]) })
 		rng.Shuffle(len(kps), func(a, b int) { kps[a], kps[b] = kps[b], kps[a] })
 		limit := len(kps)
